@@ -371,7 +371,11 @@ def build_feature_font(rng, variable=False):
         fea = fea + "feature dist {\n  %s\n} dist;\n" % "\n  ".join(sorted(set(vk), key=lambda l: l.split()[1:3]))
     addOpenTypeFeaturesFromString(fb.font, fea)
     if variable:
-        _add_hvar(fb.font, rng)
+        if rng.chance(50): _add_hvar(fb.font, rng)
+        else: _add_implicit_var(fb.font, rng, "HVAR")
+        if rng.chance(60):
+            fb.setupVerticalMetrics({g: (900 + 10 * i, 40 + i) for i, g in enumerate(order)}); fb.setupVerticalHeader(ascent=500, descent=-500)
+            _add_implicit_var(fb.font, rng, "VVAR")
     b = io.BytesIO(); fb.font.save(b)
     return b.getvalue(), fea, tags
 
@@ -394,6 +398,32 @@ def _add_hvar(font, rng):
     h = newTable("HVAR"); h.table = ot.HVAR(); h.table.Version = 0x00010000; h.table.VarStore = vs
     h.table.AdvWidthMap = VB.buildVarIdxMap([mapping[g] for g in order], order); h.table.LsbMap = h.table.RsbMap = None
     font["HVAR"] = h
+
+def _add_implicit_var(font, rng, tag):
+    """HVAR/VVAR WITHOUT an advance map (VarData 0 row = glyph id), with side-bearing / origin maps that point at other glyphs' rows and
+    into a second VarData"""
+    from fontTools.ttLib import newTable
+    from fontTools.ttLib.tables import otTables as ot
+    from fontTools.varLib import builder as VB
+    order = font.getGlyphOrder()
+    axes = ["wght", "wdth"]
+    regions = [{"wght": (0, 1, 1)}, {"wdth": (0, 1, 1)}]
+    rows0 = [[10 + 7 * i, 3 * i - 11] for i in range(len(order))]
+    rows1 = [[-5 - i, 4 + 2 * i] for i in range(rng.randint(1, 4))]
+    vs = VB.buildVarStore(VB.buildVarRegionList(regions, axes), [VB.buildVarData([0, 1], rows0, optimize=False), VB.buildVarData([0, 1], rows1, optimize=False)])
+    def side_map():
+        if rng.chance(35): return None
+        idx = []
+        for i in range(len(order)):
+            k = rng.below(3)
+            idx.append(i if k == 0 else rng.below(len(order)) if k == 1 else (1 << 16) + rng.below(len(rows1)))
+        return VB.buildVarIdxMap(idx, order)
+    t = newTable(tag); t.table = getattr(ot, tag)(); t.table.Version = 0x00010000; t.table.VarStore = vs
+    if tag == "HVAR":
+        t.table.AdvWidthMap = None; t.table.LsbMap = side_map(); t.table.RsbMap = side_map()
+    else:
+        t.table.AdvHeightMap = None; t.table.TsbMap = side_map(); t.table.BsbMap = side_map(); t.table.VOrgMap = side_map()
+    font[tag] = t
 
 # ------------------------------------------------------------------ subsetting and comparison
 IGNORABLE = set([0xAD, 0x34F, 0x61C, 0x115F, 0x1160, 0x17B4, 0x17B5, 0x3164, 0xFEFF, 0xFFA0]) | set(range(0x180B, 0x180F)) | \
@@ -437,6 +467,7 @@ def compare_subset(data, order, sub, suborder, texts, feats_list, locs, requeste
     for g in requested:
         if g not in suborder: return "requested glyph %r is not in the subset" % g
     i0 = {g: i for i, g in enumerate(order)}; i1 = {g: i for i, g in enumerate(suborder)}
+    has_v = "vmtx" in f2 and "vhea" in f2
     for loc in locs:
         h0 = HBFont(data, order, variations=loc); h1 = HBFont(sub, suborder, variations=loc)
         for feats in feats_list:
@@ -447,6 +478,9 @@ def compare_subset(data, order, sub, suborder, texts, feats_list, locs, requeste
             if g == ".notdef" or g not in i0: continue
             a = h0.advance(i0[g]); b = h1.advance(i1[g])
             if abs(a - b) > tol: return "advance of %r at %r: original %r, subset %r" % (g, loc, a, b)
+            if has_v:
+                a = h0.v_advance(i0[g]); b = h1.v_advance(i1[g])
+                if abs(a - b) > tol: return "vertical advance of %r at %r: original %r, subset %r" % (g, loc, a, b)
             oa = h0.outline(i0[g]); ob = h1.outline(i1[g])
             if oa != ob: return "outline of %r at %r: original %r, subset %r" % (g, loc, oa[:4], ob[:4])
     return None
